@@ -445,7 +445,7 @@ Definition changes_sql_f {A} (rows : list (bytes * A)) (bad : option bytes) (ps 
   changes_cmd (fun size from => changes_page_f rows size from bad) ps ty tok.
 
 (* is the faulty row among the rows the statement of this request yields?  (trigger of the
-   ReadChanges finding; for the keyset readers: the request must fail) *)
+   for the keyset readers: the request must fail) *)
 Definition fault_in_stmt {A} (bad : bytes) (stmt : list (bytes * A)) : bool :=
   existsb (fun r => beqb (fst r) bad) stmt.
 
